@@ -18,8 +18,8 @@ inductive Reaches : TPath → Val → TPath → Val → Prop
 
 /-- an `external: true` resource carries nothing but `name` and extensions -/
 def ExternalOK (kvs : Val.KVs) : Prop :=
-  Val.lookup "external" kvs = none ∨ Val.lookup "external" kvs = some (.bool false) ∨
-  (Val.lookup "external" kvs = some (.bool true) ∧ ∀ e ∈ kvs, externalAllowed e.1 = true)
+  Val.lookup "external" kvs = none ∨ (∃ x, Val.lookup "external" kvs = some x ∧ asBoolean x = some false) ∨
+  (∃ x, Val.lookup "external" kvs = some x ∧ asBoolean x = some true ∧ ∀ e ∈ kvs, externalAllowed e.1 = true)
 
 def Passes : Checker → Val → Prop
   -- a volume is null, or a mapping that does not combine `external` with creation parameters
